@@ -525,6 +525,28 @@ def a_r1_getattr(schema: Schema, rep: Report):
             rep.check("A-R1", "Element.__get__:unset-slot-is-not-AttributeError", bad_ is None, "Element.__get__ raises AttributeError for an unset slot: Python then asks Aggregate.__getattr__ for that very name, which starts by reading the first sub-aggregate's descriptor - unset as well on every aggregate with repeated children and on the blank instance copy / pickle create - and recurses without end" if bad_ is not None else "", f"{p.module(_TYPES).relpath}:{(bad_ or g_).lineno}")
     except AnalysisError:
         pass
+    # nothing in __getattr__ renders the instance: repr() / str() of an aggregate read every declared child through its
+    # descriptor, which raises KeyError on the half-built instance copy / pickle probe (__setstate__, __reduce_ex__ ...)
+    selfp = params_of(fn)[0]
+    renders = []
+    for n in own_nodes(fn):
+        if isinstance(n, ast.FormattedValue) and isinstance(n.value, ast.Name) and n.value.id == selfp:
+            renders.append(n)
+        elif isinstance(n, ast.Call) and isinstance(n.func, ast.Name) and n.func.id in ("repr", "str", "format", "ascii") and n.args and isinstance(n.args[0], ast.Name) and n.args[0].id == selfp:
+            renders.append(n)
+        elif isinstance(n, ast.Call) and isinstance(n.func, ast.Attribute) and n.func.attr == "format" and any(isinstance(a_, ast.Name) and a_.id == selfp for a_ in list(n.args) + [k_.value for k_ in n.keywords]):
+            renders.append(n)
+        elif isinstance(n, ast.BinOp) and isinstance(n.op, ast.Mod) and any(isinstance(a_, ast.Name) and a_.id == selfp for a_ in ast.walk(n.right)):
+            renders.append(n)
+    for r_ in renders:
+        safe = False
+        node = r_
+        while node is not fn and node is not None:
+            par = parent(node)
+            if isinstance(par, ast.Try) and any(node is s_ or _contains(s_, node) for s_ in par.body) and any(h_.type is None or any(isinstance(x_, ast.Name) and x_.id in ("Exception", "KeyError", "LookupError") for x_ in ast.walk(h_.type)) for h_ in par.handlers):
+                safe = True
+            node = par
+        rep.check("A-R1", "__getattr__:instance-not-rendered", safe, f"`{('f-string field {' + selfp + '}') if isinstance(r_, ast.FormattedValue) else text(r_)[:40]}` renders the instance inside __getattr__: Aggregate.__repr__ reads every declared child through Element.__get__, which raises KeyError on the blank instance that copy / deepcopy / pickle create and probe for __setstate__ / __reduce_ex__ - KeyError instead of AttributeError escapes and the copy fails" if not safe else "", f"{rel}:{r_.lineno}")
     for n in own_nodes(fn):
         if isinstance(n, ast.Raise):
             ok = n.exc is not None and ast.unparse(n.exc).startswith("AttributeError")
